@@ -10,6 +10,7 @@ package main
 
 import (
 	"fmt"
+	"os"
 	"sort"
 	"strconv"
 	"strings"
@@ -256,6 +257,12 @@ func exec(c proto.Case, o *proto.Out) []string {
 	used := map[string]bool{}
 	nontrivial := false
 	legacy := &legacyState{}
+	var rig *handlerRig
+	defer func() {
+		if rig != nil {
+			rig.close()
+		}
+	}()
 	for i, op := range c.Ops {
 		w := strings.Fields(op)
 		if len(w) == 0 {
@@ -404,6 +411,17 @@ func exec(c proto.Case, o *proto.Out) []string {
 			}
 			args := messages.OnResponse{Headers: map[string]string{}}
 			outs[i] = fmtSpoe(routing.VerifSPOERespActions(args, list))
+		case w[0] == "hreq" || w[0] == "hresp":
+			outs[i] = execHandlerOp(&rig, w[0] == "hreq", w[1:])
+			o.Count("handler-" + w[0] + ":" + func() string {
+				for _, x := range w[1:] {
+					if strings.HasPrefix(x, "ctx=") {
+						return x[4:]
+					}
+				}
+				return "?"
+			}())
+			nontrivial = true
 		case w[0] == "reqflow" || w[0] == "respflow":
 			outs[i] = execFlow(w[0] == "reqflow", w[1:])
 			np := 0
@@ -846,6 +864,48 @@ func enumerateFlows(tier string, r *prng.R, emit func(proto.Case)) {
 	emit(proto.Case{ID: "fx1", Ops: []string{"reqflow", "respflow bogus=1", "reqflow req=%7B%7D", "respflow procs=%5B%5D p=noop"}})
 }
 
+// enumerateHandler: the real message handler.  For every flow of the loaded configuration (one transform, two
+// conflicting transforms, an early response whose response leg is modified, no flow at all): a request and a response
+// message while the context is live and while it is cancelled (draining), in every order of the two context states;
+// then random sequences of messages in which the context state changes back and forth.
+func enumerateHandler(r *prng.R, emit func(proto.Case)) {
+	rig, err := newHandlerRig()
+	if err != nil {
+		fmt.Fprintln(os.Stderr, "c07: handler rig cannot be built:", err)
+		emit(proto.Case{ID: "hx0", Ops: []string{"hreq"}})
+		return
+	}
+	defer rig.close()
+	urls := []string{"flowa.test/x", "flowb.test/y", "flowc.test/brew", "free.test/z"}
+	hdrSets := []map[string]string{{}, {"content-type": "application/json", "x-upstream": "u1"}, {"x-first": "orig", "x-resp": "orig", "x-b": "0"}}
+	id := 0
+	for _, u := range urls {
+		for _, h := range hdrSets {
+			for _, order := range [][]bool{{false, true}, {true, false}, {true, true}, {false, false}} {
+				var ops []string
+				for _, dr := range order {
+					ops = append(ops, handlerOp(rig, hmsg{isReq: true, url: u, hdrs: h, body: `{"a":1}`}, dr))
+					ops = append(ops, handlerOp(rig, hmsg{isReq: false, url: u, status: 200, hdrs: h, body: `{"a":1}`}, dr))
+				}
+				id++
+				emit(proto.Case{ID: fmt.Sprintf("hd%d", id), Ops: ops})
+			}
+		}
+	}
+	for k := 0; k < 40; k++ {
+		rr := r.Fork()
+		var ops []string
+		for n := rr.Range(3, 8); n > 0; n-- {
+			m := hmsg{isReq: rr.Bool(), url: prng.Pick(rr, urls), status: prng.Pick(rr, []int{200, 404, 503}), hdrs: prng.Pick(rr, hdrSets),
+				body: prng.Pick(rr, []string{"", `{"a":1}`, `{"a":2,"b":"x"}`})}
+			ops = append(ops, handlerOp(rig, m, rr.Chance(50)))
+		}
+		id++
+		emit(proto.Case{ID: fmt.Sprintf("hg%d", id), Ops: ops})
+	}
+	emit(proto.Case{ID: "hx1", Ops: []string{"hreq", "hresp url=x", "hreq ctx=maybe url=x", "hresp ctx=live status=zz", "hreq ctx=live bogus=1"}})
+}
+
 var keyPool = []string{"x", "a", "b", "x-lunar", "X", "a-b", "content-type", "é"}
 // values are BYTE strings: valid UTF-8 (é, €), ISO-8859-1 text, lone continuation byte, truncated 2/3/4-byte
 // sequences, overlong form, 0xC0/0xFF/0xFE, NBSP byte
@@ -1011,6 +1071,7 @@ func gen(r *prng.R, f proto.Flags, emit func(proto.Case)) {
 	enumerate("eq", reqReps, "rq", "reqstart", "reqsite", reqLen, emit)
 	enumerate("es", respReps, "rs", "respstart", "respsite", respLen, emit)
 	enumerateAliased(reqLen, emit)
+	enumerateHandler(r.Fork(), emit)
 	enumerateFlows(f.Tier, r.Fork(), emit)
 	legacyLen := 3
 	if f.Tier == "thorough" {
